@@ -538,3 +538,123 @@ Example C08_nonvacuous_cleanup_env :
     = LObj [1000; 1001]%Z /\
   load_model [1000%Z] ex_fs3 0 = LObj [1000; 1001; 1002]%Z.
 Proof. split; [exact (stuck_env_safe 0 1 2) | split; vm_compute; reflexivity]. Qed.
+
+(* ================================================================================================
+   ROUND 4 EXTENSION: TARGETS BELOW A CHAIN OF DIRECTORIES (model/C08_Model_Tree.v, proof/C08_Proofs_Tree.v)
+     anc                            the directories above the target, outermost first; each may or may not exist
+     tree_prog st m p anc ...       effects of the save: existence check, os.makedirs of the chain (directory
+                                    store only: one MkDir per directory, NO clean-up handler for them), then the
+                                    rest of save_prog
+     tree_run k st m p anc ... fs   its run with a fault at k (the zip store refuses when a directory of the
+                                    chain is missing: TemporaryDirectory(dir = parent) raises)
+     created_only anc fs fs1        fs1 = fs except that missing directories of anc were created, empty *)
+From QV.model Require Import C08_Model_Tree.
+From QV.proof Require Import C08_Proofs_Tree.
+
+(* reduction to the flat protocol: all theorems above carry over to targets with ancestors *)
+Theorem C08_tree_run_reduces :
+  forall (st : store) (m : mode) (p : path) (anc : list path) (ts tz : path) (ws zs : list item)
+         (fs : fsys) (k : nat),
+    ~ In p anc ->
+    exists fs1, created_only anc fs fs1 /\
+      ((exists o, tree_run k st m p anc ts tz ws zs fs = (fs1, o) /\ o <> Done)
+       \/ (exists k1, tree_run k st m p anc ts tz ws zs fs = run k1 (save_prog st m p ts tz ws zs) fs1)).
+Proof. exact tree_run_reduces. Qed.
+Print Assumptions C08_tree_run_reduces.
+
+(* "no save, successful or not, alters any path other than its target": for every fault index, both stores,
+   both modes, every chain of existing / missing directories above the target and every content of all paths,
+   a path other than the target ends as it was — except that a MISSING directory of the chain may have been
+   created (empty) *)
+Theorem C08_tree_frame :
+  forall (st : store) (m : mode) (p : path) (anc : list path) (ts tz : path) (ws zs : list item)
+         (fs : fsys) (k : nat) (q : path),
+    (p <> ts /\ p <> tz /\ ts <> tz /\ fs ts = Absent /\ fs tz = Absent) /\
+    ~ In p anc /\ ~ In ts anc /\ ~ In tz anc ->
+    q <> p ->
+    let fs' := fst (tree_run k st m p anc ts tz ws zs fs) in
+    fs' q = fs q \/ (In q anc /\ fs q = Absent /\ fs' q = Dir []).
+Proof. exact tree_frame. Qed.
+Print Assumptions C08_tree_frame.
+
+(* every PRE-EXISTING path other than the target (ancestor directories, empty or not, included) is still
+   there, unchanged, after a failed save as after a successful one *)
+Theorem C08_tree_preexisting_kept :
+  forall (st : store) (m : mode) (p : path) (anc : list path) (ts tz : path) (ws zs : list item)
+         (fs : fsys) (k : nat) (q : path),
+    (p <> ts /\ p <> tz /\ ts <> tz /\ fs ts = Absent /\ fs tz = Absent) /\
+    ~ In p anc /\ ~ In ts anc /\ ~ In tz anc ->
+    q <> p -> fs q <> Absent ->
+    fst (tree_run k st m p anc ts tz ws zs fs) q = fs q.
+Proof. exact tree_preexisting_kept. Qed.
+Print Assumptions C08_tree_preexisting_kept.
+
+Theorem C08_tree_no_partial_loadable :
+  forall (markers : list item) (st : store) (m : mode) (p : path) (anc : list path) (ts tz : path)
+         (ws zs : list item) (fs : fsys) (k : nat),
+    (p <> ts /\ p <> tz /\ ts <> tz /\ fs ts = Absent /\ fs tz = Absent) /\
+    ~ In p anc /\ ~ In ts anc /\ ~ In tz anc ->
+    match load_model markers (fst (tree_run k st m p anc ts tz ws zs fs)) p with
+    | LErr => True
+    | LObj c => load_model markers fs p = LObj c \/ c = final_content st ws zs
+    end.
+Proof. exact tree_no_partial_loadable. Qed.
+Print Assumptions C08_tree_no_partial_loadable.
+
+(* write-once below any chain: nothing is modified, no directory is created *)
+Theorem C08_tree_write_once :
+  forall (st : store) (p : path) (anc : list path) (ts tz : path) (ws zs : list item) (fs : fsys) (k : nat),
+    fs p <> Absent ->
+    (forall q, fst (tree_run k st MW p anc ts tz ws zs fs) q = fs q) /\
+    (1 <= k -> snd (tree_run k st MW p anc ts tz ws zs fs) = ErrExists).
+Proof. exact tree_write_once. Qed.
+Print Assumptions C08_tree_write_once.
+
+Theorem C08_tree_success_complete :
+  forall (st : store) (m : mode) (p : path) (anc : list path) (ts tz : path) (ws zs : list item)
+         (fs : fsys) (k : nat),
+    (p <> ts /\ p <> tz /\ ts <> tz /\ fs ts = Absent /\ fs tz = Absent) /\
+    ~ In p anc /\ ~ In ts anc /\ ~ In tz anc ->
+    snd (tree_run k st m p anc ts tz ws zs fs) = Done ->
+    fst (tree_run k st m p anc ts tz ws zs fs) p = final_entry st ws zs.
+Proof. exact tree_success_complete. Qed.
+Print Assumptions C08_tree_success_complete.
+
+(* NECESSITY of "no clean-up handler for the created directories": the statement for an arbitrary clean-up
+   environment E (run_x), which holds for the handlers the code has and is REFUTED for a clean-up that
+   "undoes" os.makedirs by pruning empty directories upwards (os.removedirs): a directory that existed
+   before the save, and was empty, is gone after a failed save *)
+Definition C08_tree_kept_under (E : list path -> env) : Prop :=
+  forall (m : mode) (p : path) (anc : list path) (ts tz : path) (ws zs : list item) (fs : fsys) (k : nat) (q : path),
+    (p <> ts /\ p <> tz /\ ts <> tz /\ fs ts = Absent /\ fs tz = Absent) /\
+    ~ In p anc /\ ~ In ts anc /\ ~ In tz anc ->
+    q <> p -> fs q <> Absent ->
+    fst (run_x (E anc) k (tree_prog SDir m p anc ts tz ws zs) fs) q = fs q.
+
+Theorem C08_tree_kept_with_the_handlers_of_the_code : C08_tree_kept_under (fun _ => std_env).
+Proof. exact tree_kept_std. Qed.
+Print Assumptions C08_tree_kept_with_the_handlers_of_the_code.
+
+Theorem C08_tree_pruning_cleanup_refuted : ~ C08_tree_kept_under prune_env.
+Proof. exact tree_prune_refuted. Qed.
+Print Assumptions C08_tree_pruning_cleanup_refuted.
+
+Example C08_nonvacuous_tree :
+  (* hypotheses satisfiable; the directory store creates the two missing directories below an empty and a
+     non-empty existing one, the zip store refuses and creates nothing *)
+  let codes := [2; 1; 0; 0]%Z in
+  let fs0 := tree_fs Absent codes in
+  ((0 <> 1 /\ 0 <> 2 /\ 1 <> 2 /\ fs0 1 = Absent /\ fs0 2 = Absent) /\
+   ~ In 0 (anc_paths codes) /\ ~ In 1 (anc_paths codes) /\ ~ In 2 (anc_paths codes)) /\
+  (let r := tree_run 100 SDir MW 0 (anc_paths codes) 1 2 [1; 2]%Z [] fs0 in
+   snd r = Done /\ fst r 8 = Dir [] /\ fst r 9 = Dir [] /\ fst r 7 = Dir [] /\ fst r 6 = Dir [78%Z]
+   /\ fst r 0 = Dir [1; 2]%Z) /\
+  (let r := tree_run 100 SZip MW 0 (anc_paths codes) 1 2 [1; 2]%Z [501; 502]%Z fs0 in
+   snd r = ErrOther /\ fst r 8 = Absent /\ fst r 0 = Absent) /\
+  (* a fault at the first write: the created directories stay, the existing ones are as they were *)
+  (let r := tree_run 6 SDir MW 0 (anc_paths codes) 1 2 [1; 2]%Z [] fs0 in
+   snd r = Faulted /\ fst r 8 = Dir [] /\ fst r 7 = Dir [] /\ fst r 0 = Absent /\ fst r 1 = Absent).
+Proof.
+  split; [|split; [exact tree_nonvacuous_dir_creates|split; [exact tree_nonvacuous_zip_refuses|vm_compute; repeat split]]].
+  split; [repeat split; try discriminate|]; repeat split; cbn; intuition discriminate.
+Qed.
